@@ -52,16 +52,25 @@ def _args(e):
         return ("?",)
 
 
+KILL_FILTERS = {
+    None: None,
+    "after_shutdown": lambda s, p: any(h["flags"].shutdown for h in s.world.execs),
+    "before_shutdown": lambda s, p: not any(h["flags"].shutdown for h in s.world.execs),
+}
+
+
 def run_program(prog, prefix=(), kinds=("P", "T", "K"), kill_code=-9, track_states=True,
-                monitors=(), horizon=50_000):
+                monitors=(), horizon=50_000, kill_when=None):
     pool = prog.get("pool", {})
     S = K.Sched(prefix, kinds=kinds, kill_code=kill_code, horizon=horizon,
-                pipe_cap=pool.get("pipe_cap", 65536), track_states=track_states)
+                pipe_cap=pool.get("pipe_cap", 65536), track_states=track_states,
+                kill_filter=KILL_FILTERS[kill_when])
     K.S = S
     tasks.reset()
     gc_was = gc.isenabled()
     gc.disable()
     w = W.build_world(S, cpu_count=pool.get("cpu_count", 2), psutil=pool.get("psutil", True))
+    S.world = w
     rec = Record()
     rec.prog = prog
     rec.futures = {}
@@ -139,6 +148,7 @@ def run_program(prog, prefix=(), kinds=("P", "T", "K"), kill_code=-9, track_stat
         K.S = None
     harvest(rec, S, w, verdict)
     ctx.clear()
+    S.world = None
     w.teardown()
     tasks.reset()
     if gc_was:
@@ -177,7 +187,14 @@ def do_op(ctx, op, entry):
         base = _pool_kwargs(w, pool)
         for k, v in base.items():
             kw.setdefault(k, v)
+        prev = ctx["e"]
+        entry["pids_before"] = prev._processes.raw_keys() if prev is not None else []
+        del prev
         e = w.re.get_reusable_executor(**kw)
+        for h in w.execs:
+            if h["ref"]() is e:
+                h["max_seen"] = e._max_workers
+        entry["pids_after"] = e._processes.raw_keys()
         entry["same"] = e is ctx["e"]
         entry["id"] = getattr(e, "executor_id", None)
         entry["n_workers"] = e._processes.raw_len()
@@ -305,15 +322,55 @@ def do_op(ctx, op, entry):
             S.kill_proc(ws[op[1]], S.cur, op[2] if len(op) > 2 else -9)
     elif name == "probe":
         e = ctx["e"]
+        hh = [h for h in w.execs if h["ref"]() is e][0]
         entry["value"] = dict(n_workers=e._processes.raw_len(), max_workers=e._max_workers,
-                              broken=e._flags.broken is not None, shutdown=e._flags.shutdown)
+                              broken=e._flags.broken is not None, shutdown=e._flags.shutdown,
+                              slot=hh["slot_ksem"].value, queue_size=hh["queue_size"])
         del e
+    elif name == "expect_inside":
+        n = op[1]
+        r = S.point(lambda: _inside_total(S) == n, 3600.0, label="expect_inside")
+        entry["value"] = _inside_total(S)
+    elif name == "submit_expect":
+        # a submit that is expected to raise (after shutdown / on a broken pool)
+        e = ctx["e"]
+        entry["broken_at_call"] = e._flags.broken is not None
+        try:
+            f = e.submit(tasks.ok, op[1], 0)
+            rec.futures[op[1]] = f
+            rec.values[op[1]] = ("ok", 0)
+            entry["value"] = ("accepted",)
+        except (SimAbort, SimKilled):
+            raise
+        except BaseException as ex:
+            entry["value"] = ("exc",) + _summ_exc(ex)
+            del ex
+        del e
+    elif name == "settle":
+        # a long sleep expires only at quiescence: every other thread has run until it blocks
+        S.point(lambda: False, 7200.0, label="settle")
+    elif name == "account":
+        parent = S.procs[K.PARENT_PID]
+        entry["value"] = dict(
+            fds={fd: (e[0].id, e[1]) for fd, e in parent.fds.items() if fd != w.tracker_fd},
+            threads=[t.name for t in parent.threads if not t.is_main and t.state != "done"
+                     and not t.name.startswith("user#")],
+            alive=[p.label for p in S.procs.values() if p.label.startswith("worker") and p.alive],
+            zombies=[p.label for p in S.procs.values() if p.label.startswith("worker")
+                     and not p.alive and not p.reaped],
+            sems=sorted(S.sem_names), children=len(w.procm._children),
+            deaths=sum(1 for p in S.procs.values() if p.label.startswith("worker")
+                       and not p.alive and not p.clean))
     elif name == "hold":
         return "HOLD"
     elif name == "exit":
         return "EXIT"
     else:
         raise ValueError(f"unknown op {op}")
+
+
+def _inside_total(S):
+    return sum(p.info.get("inside", 0) for p in S.procs.values() if p.alive)
 
 
 def harvest(rec, S, w, verdict):
@@ -352,7 +409,8 @@ def harvest(rec, S, w, verdict):
                       clean=p.clean, nfds=len(p.fds), keep_fds=p.info.get("keep_fds"),
                       depth_arg=(p.info.get("args") or [None] * 8)[7]
                       if p.info.get("args") else None,
-                      depth_seen=(p.info.get("globals") or {}).get("_CURRENT_DEPTH"))
+                      depth_seen=(p.info.get("globals") or {}).get("_CURRENT_DEPTH"),
+                      kill_phase=p.info.get("kill_phase"))
                  for p in S.procs.values() if p.label.startswith("worker#")]
     parent = S.procs[K.PARENT_PID]
     rec.parent_fds = sorted(parent.fds)
@@ -368,5 +426,7 @@ def harvest(rec, S, w, verdict):
                       kill_workers=h["flags"].kill_workers,
                       alive=h["ref"]() is not None,
                       pending=h["pending"].raw_keys(), running=h["running"].raw(),
+                      slot_value=h["slot_ksem"].value if "slot_ksem" in h else None,
+                      queue_size=h.get("queue_size"), index=h["index"],
                       nprocs=h["processes"].raw_len()) for h in w.execs]
     rec.children_left = len(w.procm._children)
